@@ -518,11 +518,11 @@ func (s *configurationStore) populate(ctx context.Context, configuration *config
 }
 
 func (s *configurationStore) getCommitted(ctx context.Context, id configapi.ConfigurationID) (_map.Map[string, *configapi.PathValue], error) {
-	return s.getTarget(ctx, s.committed, id)
+	return s.getTarget(ctx, s.committed, id, "configurations-%s")
 }
 
 func (s *configurationStore) getApplied(ctx context.Context, id configapi.ConfigurationID) (_map.Map[string, *configapi.PathValue], error) {
-	return s.getTarget(ctx, s.applied, id)
+	return s.getTarget(ctx, s.applied, id, "configurations-%s-applied")
 }
 
 func (s *configurationStore) store(ctx context.Context, store _map.Map[string, *configapi.PathValue], values map[string]configapi.PathValue) error {
@@ -557,7 +557,7 @@ func (s *configurationStore) store(ctx context.Context, store _map.Map[string, *
 func (s *configurationStore) getTarget(
 	ctx context.Context,
 	targets map[configapi.ConfigurationID]_map.Map[string, *configapi.PathValue],
-	id configapi.ConfigurationID) (_map.Map[string, *configapi.PathValue], error) {
+	id configapi.ConfigurationID, nameFormat string) (_map.Map[string, *configapi.PathValue], error) {
 	s.mu.RLock()
 	target, ok := targets[id]
 	s.mu.RUnlock()
@@ -574,7 +574,7 @@ func (s *configurationStore) getTarget(
 	}
 
 	var err error
-	target, err = _map.NewBuilder[string, *configapi.PathValue](s.client, fmt.Sprintf("configurations-%s", id)).
+	target, err = _map.NewBuilder[string, *configapi.PathValue](s.client, fmt.Sprintf(nameFormat, id)).
 		Tag("onos-config", "path-value").
 		Codec(types.Proto[*configapi.PathValue](&configapi.PathValue{})).
 		Get(ctx)
